@@ -199,6 +199,15 @@ fn service_line(r: &mut Rng, regs: &[u16; 14], mem: &[u8], pol: &ScriptPolicy) -
         let ch = if r.chance(3) { b' ' } else { b'a' + ((i as u8).wrapping_add(r.below(26) as u8) % 26) };
         v.push(ch);
     }
+    if ah == 0x0a && len >= 2 && r.chance(15) {
+        // a character of several bytes, preferably one that straddles the capacity of the buffer:
+        // the service stores bytes, it may cut inside a character
+        let a = ((regs[R_DS] as usize) * 16 + regs[R_DX] as usize) % MB;
+        let cap = mem[a] as usize;
+        let p = if cap >= 1 && cap < len && r.chance(60) { cap - 1 } else { r.below(len as u64) as usize };
+        let ch = *r.pick(&["\u{e9}", "\u{20ac}", "\u{1F600}", "\u{df}\u{e9}"]);
+        v.splice(p..p + 1, ch.bytes());
+    }
     if ah != 0x0a && len > 0 && r.chance(10) {
         // non-ASCII first character: its first UTF-8 byte is what AH=1 must return
         v.splice(0..1, "\u{e9}".bytes());
